@@ -20,6 +20,11 @@ CORPUS = [
      "ops": [{"op": "settle"}, {"op": "multi", "ops": [{"op": "emit", "node": 0, "val": v, "md": [{"tag": v, "ref": v}]} for v in (1, 2, 3)]},
              {"op": "multi", "ops": [{"op": "emit", "node": 0, "val": v, "md": []} for v in (4, 5, 6)]}, {"op": "emit", "node": 0, "val": 7, "md": []},
              {"op": "advance", "dt": 1}]},
+    # partition(1, timeout): every element fills its partition at once; no timer may be left behind (no empty partition later)
+    {"mode": "async", "flavour": "future", "nodes": [{"kind": "source", "ups": []}, {"kind": "partition_timeout", "n": 1, "timeout": 1, "key": None, "ups": [0]},
+                                                      {"kind": "sink", "mode": "sync", "f": ["id"], "ups": [1]}],
+     "ops": [{"op": "settle"}, {"op": "emit", "node": 0, "val": 1, "md": [{"tag": 1, "ref": 1}]}, {"op": "emit", "node": 0, "val": 2, "md": []},
+             {"op": "advance", "dt": 1}, {"op": "emit", "node": 0, "val": 3, "md": []}, {"op": "advance", "dt": 2}]},
     # two partition(timeout) nodes alive at once, same key (None): each has its own timer - A filling up must not touch B's
     {"mode": "async", "flavour": "future", "nodes": [{"kind": "source", "ups": []}, {"kind": "source", "ups": []},
                                                       {"kind": "partition_timeout", "n": 2, "timeout": 1, "key": None, "ups": [0]},
